@@ -235,6 +235,29 @@ class Exchange:
                 f = per[i] if i < len(per) else "SUCCESS"
                 b = self.bets.get(str(x.get("betId")))
                 crep = {"instruction": {"betId": x.get("betId")}}
+                if f.startswith("SPLIT:"):
+                    # the two halves of a replace report answered independently: "SPLIT:<cancel>:<place>"
+                    _, cst, pst = f.split(":")[:3]
+                    if cst == "SUCCESS" and b is not None and b.status == "E" and b.sr > 0:
+                        c = b.sr
+                        b.sc = round(b.sc + c, 2)
+                        b.sr = 0.0
+                        b.status = "EC"
+                        b.cd = self.now_ms()
+                        changed.append(b)
+                        crep.update(status="SUCCESS", sizeCancelled=c, cancelledDate=self._iso())
+                    elif cst == "SUCCESS":
+                        cst = "FAILURE"
+                        crep.update(status="FAILURE", errorCode="BET_TAKEN_OR_LAPSED")
+                    elif cst == "TIMEOUT":
+                        crep.update(status="TIMEOUT", errorCode=None)
+                    else:
+                        crep.update(status="FAILURE", errorCode="BET_TAKEN_OR_LAPSED")
+                    pins = {"selectionId": b.sel if b else 0, "side": b.side if b else "BACK", "orderType": "LIMIT", "limitOrder": {"size": 0, "price": x.get("newPrice"), "persistenceType": "LAPSE"}}
+                    prep = {"status": pst, "instruction": pins, "errorCode": None if pst == "TIMEOUT" else "RELATED_ACTION_FAILED"}
+                    ost = "FAILURE" if "FAILURE" in (cst, pst) else "TIMEOUT"
+                    reports.append({"status": ost, "errorCode": None if ost == "TIMEOUT" else "RELATED_ACTION_FAILED", "cancelInstructionReport": crep, "placeInstructionReport": prep})
+                    continue
                 if f == "SUCCESS" and b is not None and b.status == "E" and b.sr > 0:
                     c = b.sr
                     b.sc = round(b.sc + c, 2)
